@@ -37,6 +37,12 @@ func gen(seed int64, tier string, idx int) *pipe.Scenario {
 	if g.R.Intn(4) == 0 {
 		sc.Steps = append(sc.Steps, pipe.Step{AtEvent: 30 + g.R.Intn(300), Op: "stopwait"})
 	}
+	if idx%16 == 6 {
+		// the stored position must not pass a record that was neither delivered
+		// nor dead-lettered, also when dead-lettering fails inside a fan-out
+		sc.Faults, sc.Steps = nil, nil
+		g.FanoutUnabsorbed(sc)
+	}
 	return sc
 }
 
